@@ -18,6 +18,9 @@ const canary = "CANARY-c12"
 
 type c12Case struct {
 	Ops []string `json:"ops"`
+	// Isolated: every probe is served on a world of its own, as the first request after the history (probes are
+	// requests too: one that repairs what the history damaged must not hide the damage from the next one)
+	Isolated bool `json:"isolated_probes,omitempty"`
 }
 
 var (
@@ -90,6 +93,13 @@ func c12Probes() []vlib.Req {
 		vlib.Req{Method: "OPTIONS", Hdr: map[string][]string{"Origin": {"https://a.example"}, "Access-Control-Request-Method": {"PUT"}, "Access-Control-Request-Headers": {"x-evil"}}},
 		vlib.Req{Method: "OPTIONS", Hdr: map[string][]string{"Origin": {"https://d.example"}, "Access-Control-Request-Method": {"EVIL"}, "Access-Control-Request-Headers": {"x-evil"}}},
 		vlib.Req{Method: "OPTIONS", Hdr: map[string][]string{"Origin": {"https://e.example"}, "Access-Control-Request-Method": {"PURGE"}, "Access-Control-Request-Headers": {"authorization,x-q"}}},
+	)
+	// the value the scribbling handler writes into every header slice it can reach, sent back as a request value
+	p = append(p,
+		vlib.Req{Method: "GET", Hdr: map[string][]string{"Origin": {canary}}},
+		vlib.Req{Method: "OPTIONS", Hdr: map[string][]string{"Origin": {canary}, "Access-Control-Request-Method": {"PUT"}}},
+		vlib.Req{Method: "OPTIONS", Hdr: map[string][]string{"Origin": {"https://a.example"}, "Access-Control-Request-Method": {canary}, "Access-Control-Request-Headers": {canary}}},
+		vlib.Req{Method: "OPTIONS", Hdr: map[string][]string{"Origin": {"https://d.example"}, "Access-Control-Request-Method": {"PUT"}, "Access-Control-Request-Headers": {"x-a", canary}, "Access-Control-Request-Private-Network": {canary}}},
 	)
 	// variations of every served request: the same request with one more (disallowed) ACRH field line, with the
 	// first line kept and a disallowed second one, with a near-miss origin / method, and with ACRPN toggled
@@ -291,6 +301,25 @@ func c12Judge(k c12Case) *vlib.Failure {
 		return vlib.Failf("before any operation: middleware m%d answers %s differently when it is not the first request it sees (the probes before it are the only history)", j/len(probes), probes[j%len(probes)])
 	}
 	probes := c12Probes()
+	if k.Isolated {
+		for mi := 0; mi < c12N; mi++ {
+			for pi, p := range probes {
+				w, err := c12NewWorld()
+				if err != nil {
+					return vlib.Failf("configurations of the C12 alphabet rejected: %v", err)
+				}
+				for i, op := range k.Ops {
+					if err := w.apply(op); err != nil {
+						return vlib.Failf("step %d %s failed: %v", i+1, op, err)
+					}
+				}
+				if got := observe(w.m[mi], []vlib.Req{p}); got[0] != base[mi*len(probes)+pi] {
+					return vlib.Failf("after %v, middleware m%d answers %s (its first request since) with %s; before any adversarial activity it answered %s", k.Ops, mi, p, got[0], base[mi*len(probes)+pi])
+				}
+			}
+		}
+		return nil
+	}
 	for i, op := range k.Ops {
 		if err := w.apply(op); err != nil {
 			return vlib.Failf("step %d %s failed: %v", i+1, op, err)
@@ -342,6 +371,27 @@ func checkC12(c *vlib.Ctx) (string, string) {
 			return levelMC, rule
 		}
 	}
+	// isolated probes: every history of length 1 over the full alphabet and of length 2 over the reduced one
+	var iso []c12Case
+	for _, a := range full {
+		if !strings.HasSuffix(a, ":noop") {
+			iso = append(iso, c12Case{Ops: []string{a}, Isolated: true})
+		}
+	}
+	if c.Thorough() {
+		for _, a := range red {
+			for _, b := range red {
+				iso = append(iso, c12Case{Ops: []string{a, b}, Isolated: true})
+			}
+		}
+	}
+	c.ParRange(int64(len(iso)), 1, "C12 isolated probes", func(i int64) {
+		c.States.Add(int64(c12N * len(c12Probes())))
+		c.Transitions.Add(int64(c12N * len(c12Probes()) * (len(iso[i].Ops) + 1)))
+		c.Nontrivial.Add(1)
+		ck.Try(iso[i])
+	})
+	c.Set("isolated_probe_histories", len(iso))
 	for _, p := range passes {
 		w := vlib.NewWords(p.ops, p.n)
 		c.ParRange(w.Count(), 16, fmt.Sprintf("C12 histories of length <=%d over %d ops", p.n, len(p.ops)), func(i int64) {
